@@ -258,7 +258,14 @@ def c18():
                f"wide_scmp/is_all_ones/apply_mask/fill_ones at width {w} in {n} limb(s); operands symbolic "
                f"(zero-padded above the width, the documented precondition)",
                ["wide_scmp", "wide_is_all_ones", "wide_apply_mask", "wide_fill_ones", "pack_nb_width"], unwind=n + 2)
-            ta = t if (nb == 16 and w in (lo, lo + 1)) else {"thorough"}   # the bit-fill loop is expensive
+            # the bit-fill loop is expensive: quick only at 2 limbs; thorough up to 3 limbs, at 3 limbs only the
+            # boundary widths (the 4-limb instances exhaust memory under 16 parallel CBMC runs)
+            if nb == 16 and w in (lo, lo + 1):
+                ta = t
+            elif nb <= 16 or (nb == 24 and w in qw):
+                ta = {"thorough"}
+            else:
+                ta = set()
             mk(f"c18_ashr_nb{nb}_w{w}", f"c18::ashr{g}(s, {w})", ta,
                f"wide_ashr at width {w} in {n} limb(s); operand and full 64-bit amount symbolic",
                ["wide_ashr", "wide_lshr"], unwind=w + 2)
@@ -476,7 +483,8 @@ BOUNDS["C18"] = dict(
     quick="2 and 3 limbs (16, 24 bytes): every helper, all limb contents, full 64-bit shift amounts; width-carrying "
           "helpers at the 4 boundary widths of the top limb; resize/scmp_asym with shorter source allocations; "
           "wide_mul: 1 limb full, 2-3 limbs with one operand a 3-bit window",
-    thorough="1..4 limbs; every width whose top bit lies in the top limb (64(n-1) < w <= 64n)",
+    thorough="1..4 limbs; every width whose top bit lies in the top limb (64(n-1) < w <= 64n); wide_ashr up to 3 limbs "
+             "(3 limbs: boundary widths only)",
     outside="Cranelift / AOT-C lowering of every operator; interpreter evaluation above 64 bits (BigUint); "
             "multi-operator expressions; wide_mul with both operands symbolic above one limb; more than 4 limbs")
 BOUNDS["C32"] = dict(
